@@ -155,7 +155,7 @@ func c05Parent(cfg vlib.Cfg) {
 				rep.Set("timeout_path_shutdown_returned", v.TimeoutsSeen > 0 && hasRet(&out, "Shutdown"))
 				return
 			}
-			if len(v.Inconcl) > 0 {
+			if len(v.Inconcl) > 0 && len(v.Viol) == 0 {
 				if j.attempt < 2 {
 					j.attempt++
 					retry = append(retry, j)
